@@ -25,7 +25,10 @@ namespace vf {
 // ---------------------------------------------------------------- PRNG (splitmix64)
 struct Rng {
     uint64_t s;
-    explicit Rng(uint64_t seed = 1) : s(seed * 0x9E3779B97F4A7C15ull + 0x1234567ull) {}
+    // the seed is hashed into the state: with s = seed * increment, generators seeded k, k+1, k+2 (shards, cases) would walk the
+    // SAME sequence shifted by one step, and "independent" shards would repeat each other's cases
+    static uint64_t mix(uint64_t z) { z += 0x9E3779B97F4A7C15ull; z = (z ^ (z >> 30)) * 0xBF58476D1CE4E5B9ull; z = (z ^ (z >> 27)) * 0x94D049BB133111EBull; z = z ^ (z >> 31); z *= 0xD6E8FEB86659FD93ull; return z ^ (z >> 32); }
+    explicit Rng(uint64_t seed = 1) : s(mix(mix(seed) + 0x1234567ull)) {}
     uint64_t next() {
         uint64_t z = (s += 0x9E3779B97F4A7C15ull);
         z = (z ^ (z >> 30)) * 0xBF58476D1CE4E5B9ull;
@@ -299,6 +302,21 @@ inline double thread_cpu_s() {
     return ts.tv_sec + ts.tv_nsec * 1e-9;
 }
 
+// numbers at the edges of the integer types that hand-written and library conversions stumble over
+inline std::string magic_number(Rng& r) {
+    static const char* N[] = {"0", "00", "007", "255", "256", "4095", "4096", "65535", "65536", "99999", "214748364", "2147483639", "2147483640", "2147483646", "2147483647", "2147483648", "2147483649", "2147483650",
+                              "4294967294", "4294967295", "4294967296", "4294967297", "9223372036854775806", "9223372036854775807", "9223372036854775808", "9223372036854775809", "18446744073709551614", "18446744073709551615",
+                              "18446744073709551616", "-1", "-2147483648", "-2147483649", "-9223372036854775808", "1e3", "0x10", "010"};
+    return N[r.below(sizeof N / sizeof N[0])];
+}
+// replaces one run of digits of s (or inserts at a random place when there is none) by a magic number
+inline void put_magic_number(Rng& r, std::string& s) {
+    std::vector<std::pair<size_t, size_t>> runs;
+    for (size_t i = 0; i < s.size();) { if (isdigit((unsigned char)s[i])) { size_t j = i; while (j < s.size() && isdigit((unsigned char)s[j])) j++; runs.push_back({i, j - i}); i = j; } else i++; }
+    std::string m = magic_number(r);
+    if (runs.empty()) s.insert(s.empty() ? 0 : r.below(s.size() + 1), m);
+    else { auto run = runs[r.below(runs.size())]; s.replace(run.first, run.second, m); }
+}
 }  // namespace vf
 
 // Sanitizer report hooks: stamp every report with the case in flight (stderr, same stream as
